@@ -22,7 +22,7 @@ def nr_h(name, cond, N, nblocks, sched, nstr_rule='$a = "ab"'):
         dump_image(ctx, outdir, "IMG_", rule, fname="img_img.h")
     return Harness(name="H1_notready_%s_b%d_s%02x" % (name, nblocks, sched), src="c13/notready.c",
                    defines=["-DVF_N=%d" % N, "-DVF_NBLOCKS_C=%d" % nblocks, "-DVF_SCHED=0x%x" % sched, "-DVF_MAX_NOTREADY=%d" % popcount(sched)],
-                   unwind=N + 3, gen=gen, timeout=1500,
+                   unwind=N + 3, gen=gen, timeout=3000,
                    unwind_funcs={"vf_init_tables": 257, "yr_execute_code": 16, "main": 6, "vf_trace_eq": 9, "yr_arena_ptr_to_ref": 4, "memcmp": 9},
                    flags=["--object-bits", "10"],
                    desc="whole scan, uninterrupted vs not-ready at iterator calls %s, %d block(s), rule: %s" % ([k for k in range(8) if (sched >> k) & 1], nblocks, rule.strip()),
@@ -43,7 +43,7 @@ def harnesses(ctx, tier):
         # match lists and does not finish in 1500 s even on 3 bytes: that shape is covered by the inductive step H2
         combos = [(1, 0x1, 4), (2, 0x1, 4), (2, 0x3, 4)]
     else:
-        combos = [(1, s, 4) for s in schedules(1, 2)] + [(2, 0x1, 4), (2, 0x3, 4), (3, 0x1, 4), (3, 0x3, 4)]
+        combos = [(1, 0x1, 4), (1, 0x3, 4), (2, 0x1, 4), (2, 0x3, 4), (3, 0x1, 4)]
     for nb, s, N in combos:
         hs.append(nr_h("found", "$a", N, nb, s))
     if tier == "thorough":
